@@ -307,6 +307,30 @@ def p_gcp_pickle():
     return not bad, "; ".join(bad) or "clones equal, same hash and token"
 
 
+def p_array_tokens():
+    """unequal GCP geoboxes / tilings whose arrays have the same numpy repr must not share a dask token"""
+    import math
+    import numpy as np
+    from dask.base import tokenize
+    from odc.geo.gcp import GCPGeoBox, GCPMapping
+    from odc.geo.roi import VariableSizedTiles
+    pix = np.array([(0, 0), (10, 0), (0, 10), (10, 10), (5, 5), (3, 7)], dtype=float)
+    wld = np.array([(100, 50), (110, 50), (100, 40), (110, 40), (105, 45), (103, 43)], dtype=float)
+    wld2 = wld.copy()
+    wld2[0, 0] = math.nextafter(100.0, math.inf)
+    a, b = GCPGeoBox((10, 10), GCPMapping(pix, wld, "EPSG:4326")), GCPGeoBox((10, 10), GCPMapping(pix, wld2, "EPSG:4326"))
+    many = [1] * 1200
+    many2 = list(many)
+    many2[600], many2[601] = 2, 0
+    x, y = VariableSizedTiles((tuple(many), (5,))), VariableSizedTiles((tuple(many2), (5,)))
+    bad = []
+    if a != b and tokenize(a) == tokenize(b):
+        bad.append("GCPGeoBoxes whose world points differ by one ulp are != but share a token")
+    if x != y and tokenize(x) == tokenize(y):
+        bad.append("VariableSizedTiles with 1200 chunks differing in the middle are != but share a token")
+    return not bad, "; ".join(bad) or "distinct tokens"
+
+
 def family_pair(family, i, j, clause, tier="quick", via=None):
     """replay of a part (b) finding: rebuild the (deterministic) family and evaluate the clause"""
     from odc.geo import crs as M
@@ -342,7 +366,7 @@ def pair_clause(a, b, clause):
     raise ValueError(clause)
 
 
-PREDICATES = {"many-crs": p_many_crs, "transformers-all": p_transformers_all, "crs-relation": p_crs_relation, "history": p_history, "transformer": p_transformer, "tiles-token": p_tiles_token, "gcp-pickle": p_gcp_pickle,
+PREDICATES = {"array-tokens": p_array_tokens, "many-crs": p_many_crs, "transformers-all": p_transformers_all, "crs-relation": p_crs_relation, "history": p_history, "transformer": p_transformer, "tiles-token": p_tiles_token, "gcp-pickle": p_gcp_pickle,
               "lossless": p_lossless, "family-pair": family_pair}
 
 
@@ -592,11 +616,13 @@ def part_b(out, tier, scratch, w):
                 if how == "pickle":
                     cases.append(f"CPickleI {enc.ref(a)}%nat {enc.ref(c)}%nat")
                     meta.append((fname, i, how))
+                out.case(("clone", fname, i, how), True)
+                if how != "pickle":
+                    continue        # copy / deepcopy clones are checked by the predicate above only (keeps the value table small)
                 e, h, t = c19vals.observe_pair(a, c)
                 hs = "None" if h is None else f"(Some {cbool(h)})"
                 cases.append(f"CPairI {enc.ref(a)}%nat {enc.ref(c)}%nat {cbool(e)} {hs} {cbool(t)}")
                 meta.append((fname, i, how))
-                out.case(("clone", name, i, how), True)
     gbad = enc.geom_contract_failures()
     out.oblige("oracle-contract:shapely == is an equivalence and GeoJSON round trips exactly on the geometries used", "oracle-contract",
                not gbad, "; ".join(gbad[:5]))
